@@ -610,6 +610,18 @@ fn read_all_sync<R: Read>(r: &mut R, bufs: &[usize]) -> std::io::Result<Vec<u8>>
         } else {
             bufs[i % bufs.len()].max(1 << 16)
         };
+        if !bufs.is_empty() && i < 48 && bufs[i % bufs.len()] == 0 {
+            // a read into an empty buffer: returns 0 and must change nothing
+            i += 1;
+            let n = r.read(&mut [])?;
+            if n != 0 {
+                return Err(std::io::Error::new(std::io::ErrorKind::Other, format!("CVH: read into an empty buffer returned {n}")));
+            }
+            if bufs.iter().all(|&b| b == 0) {
+                i = 48;
+            }
+            continue;
+        }
         i += 1;
         let mut buf = vec![0u8; sz];
         let n = r.read(&mut buf)?;
@@ -639,6 +651,17 @@ async fn read_all_async<R: AsyncReadExt + Unpin>(r: &mut R, bufs: &[usize]) -> s
         } else {
             bufs[i % bufs.len()].max(1 << 16)
         };
+        if !bufs.is_empty() && i < 48 && bufs[i % bufs.len()] == 0 {
+            i += 1;
+            let n = r.read(&mut []).await?;
+            if n != 0 {
+                return Err(std::io::Error::new(std::io::ErrorKind::Other, format!("CVH: read into an empty buffer returned {n}")));
+            }
+            if bufs.iter().all(|&b| b == 0) {
+                i = 48;
+            }
+            continue;
+        }
         i += 1;
         let mut buf = vec![0u8; sz];
         let n = r.read(&mut buf).await?;
